@@ -477,6 +477,13 @@ def invert_harness():
     def run(vm):
         ctx = vm.ctx
         made = []
+        # a rewrite of _invert_ may build other nodes with the real constructors: display nodes / id generator are abstracted
+        from .C08 import Forest
+        from pyvc.ops import make_dict
+        forest = Forest(vm)
+        SE_ = vm.loader.cls(SYM, "SymbolicExpression")
+        SE_.class_attr_vals["_symbolic_expression_stack_"] = PyList([])
+        SE_.class_attr_vals["_id_expression_map_"] = make_dict([])
 
         def ctor(name):
             def f(it, a, k):
@@ -492,9 +499,22 @@ def invert_harness():
             r = vm.call_method(node, "_invert_")
             ok = len(made) == 1 and made[0][0] == "Not" and made[0][1] == [node] and r is made[0][3]
             ctx.check("_invert_::a-condition-is-negated-by-wrapping-it-in-Not", z3.BoolVal(ok), detail=f"{cname}: {made}")
+        # ... for every comparison operation the class knows by name (==, !=, <, <=, >, >=) and the membership tests: on partially
+        # ordered values (sets, NaN) not (a <= b) is not (a > b), so no operation may be swapped for a "complement"
+        Cmp = vm.loader.cls(SYM, "Comparator")
+        from pyvc.ops import dict_items
+        ops_ = [k_ for k_, _ in dict_items(vm._getattr(Cmp, "operation_name_map"))]
+        ops_ += [vm.loader.external("operator", "contains"), vm.module_global(SYM, "not_contains")]
+        ctx.check("_invert_::the-comparison-operations-are-enumerated", z3.BoolVal(len(ops_) >= 8), detail=repr(ops_))
+        for op_ in ops_:
+            node = vm.alloc(Cmp, {"_id_": 5, "operation": op_, "left": forest.node("SymbolicExpression", "left-operand"), "right": forest.node("SymbolicExpression", "right-operand")}, tag="Comparator")
+            del made[:]
+            r = vm.call_method(node, "_invert_")
+            ok = len(made) == 1 and made[0][0] == "Not" and made[0][1] == [node] and r is made[0][3]
+            ctx.check("_invert_::a-comparison-is-negated-by-wrapping-it-in-Not-whatever-its-operation", z3.BoolVal(ok), detail=f"{op_!r}: {made}")
         for cname, dual in (("ForAll", "Exists"), ("Exists", "ForAll")):
             v = vm.alloc(vm.loader.cls(SYM, "Variable"), {"_id_": 6}, tag="quantified-variable")
-            c = vm.alloc(vm.loader.cls(SYM, "Comparator"), {"_id_": 7}, tag="condition")
+            c = vm.alloc(vm.loader.cls(SYM, "Comparator"), {"_id_": 7, "operation": vm.loader.external("operator", "lt")}, tag="condition")
             node = vm.alloc(vm.loader.cls(SYM, cname), {"left": v, "right": c, "_id_": 8}, tag=cname)
             del made[:]
             r = vm.call_method(node, "_invert_")
